@@ -919,7 +919,7 @@ func firstN(xs []string, n int) []string {
 //	to the new round: after a skip of several rounds the skipped rounds' sets must exist, or an older polka
 //	that would release a lock cannot be admitted.
 func init() {
-	register("C03", "R8", "K1+K10", "the first height is recognised by InitialHeight before block height-1 is consulted; a round skip creates the vote sets of all skipped rounds", 5, func(c *Ctx) {
+	register("C03", "R8", "K1+K10", "the first height is recognised by InitialHeight before block height-1 is consulted, and a missing block height-1 (state sync) is answered with true, never with a panic; a round skip creates the vote sets of all skipped rounds", 8, func(c *Ctx) {
 		w := c.W
 		if f := c.fn("consensus", "State.needProofBlock"); f != nil {
 			fk := funcKey(f)
@@ -932,6 +932,38 @@ func init() {
 				c.guards(dc.call.Parent(), dc.call, fk+" :: consult the previous block", 0, guardCmp("not the chain's first height", q(H), "!=", `.*\.InitialHeight`))
 			}
 			c.Check(n == 1, fk+" :: previous-block lookup found", w.pos(f.Pos()), "1", fmt.Sprintf("%d", n))
+			// A node bootstrapped by state sync has the state of height-1 but no block: the lookup answers
+			// nil. The function runs in the consensus routine (enterNewRound / handleTxsAvailable), where a
+			// panic ends consensus for good (F40): it must answer instead, and the answer that cannot stall the
+			// height is "propose now" (true) — "false" would wait for transactions that need not come.
+			for _, di := range w.deepInstrs(f, 1) {
+				if p, isP := di.in.(*ssa.Panic); isP {
+					c.Check(false, fk+" :: never panics", w.ipos(p), "no panic in the consensus routine", "panics with "+w.expr(p.X)+": the consensus routine recovers, logs CONSENSUS FAILURE and stops for good")
+				}
+			}
+			c.Check(true, fk+" :: never panics", w.pos(f.Pos()), "no panic", "")
+			nNil := 0
+			for _, ea := range condEdges(f) {
+				if ea.A.Kind != "nil" || !regexp.MustCompile(`\.blockStore\.LoadBlockMeta\(`).MatchString(w.expr(ea.A.V)) {
+					continue
+				}
+				nNil++
+				qq := &pathQ{target: func(in ssa.Instruction) bool {
+					r, ok := in.(*ssa.Return)
+					if !ok {
+						return false
+					}
+					b, isB := boolConst(r.Results[0])
+					return !(isB && b)
+				}}
+				hit, _ := qq.reach(ea.E.From.Succs[ea.E.Succ], 0)
+				pos := w.pos(f.Pos())
+				if hit != nil {
+					pos = w.ipos(hit)
+				}
+				c.Check(hit == nil, fk+" :: a missing previous block means a proof block may be needed", pos, "true on the path where the block before this height is not in the store", "answers something other than true when the previous block is missing: after state sync with create_empty_blocks=false the node waits for transactions instead of proposing")
+			}
+			c.Check(nNil >= 1, fk+" :: the lookup result is tested for nil", w.pos(f.Pos()), ">= 1 nil test", "the result of LoadBlockMeta is used without a nil test")
 		}
 		if f := c.fn("consensus/types", "HeightVoteSet.SetRound"); f != nil {
 			fk := funcKey(f)
